@@ -338,8 +338,9 @@ func (m *twMeta) GetShardRangeInfo(db string, rp string, shardID uint64) (*meta.
 // points of a service run (a killed process makes no further calls).
 type twEngine struct {
 	*engine.EngineImpl
-	mc   *twMeta
-	desc bool
+	mc       *twMeta
+	desc     bool
+	onDelete func(what string, id uint64) // called before the engine is asked to delete a shard or an index
 }
 
 // The engine collects expired shards and indexes by ranging over maps; the order
@@ -377,11 +378,18 @@ func (e *twEngine) DeleteShard(db string, ptId uint32, shardID uint64) error {
 	if e.mc.isDead() {
 		return errTwDead
 	}
+	if e.onDelete != nil {
+		e.onDelete("shard", shardID)
+	}
 	err := e.EngineImpl.DeleteShard(db, ptId, shardID)
 	e.mc.mu.Lock()
 	e.mc.engDeletes = append(e.mc.engDeletes, shardID)
 	if err != nil {
-		e.mc.engDelErrs = append(e.mc.engDelErrs, fmt.Sprintf("shard %d: %v", shardID, err))
+		if errno.Equal(err, errno.ShardNotFound) {
+			e.mc.engDelErrs = append(e.mc.engDelErrs, "shard not found")
+		} else {
+			e.mc.engDelErrs = append(e.mc.engDelErrs, fmt.Sprintf("other: %v", err))
+		}
 	}
 	if e.mc.killPoint == "delete" {
 		e.mc.killPoint, e.mc.killFired, e.mc.dead = "", "delete", true
@@ -393,6 +401,9 @@ func (e *twEngine) DeleteShard(db string, ptId uint32, shardID uint64) error {
 func (e *twEngine) DeleteIndex(db string, ptId uint32, indexID uint64) error {
 	if e.mc.isDead() {
 		return errTwDead
+	}
+	if e.onDelete != nil {
+		e.onDelete("index", indexID)
 	}
 	err := e.EngineImpl.DeleteIndex(db, ptId, indexID)
 	e.mc.mu.Lock()
